@@ -28,7 +28,8 @@ LEVEL_TEXT = ("For every McpPydanticBase subclass discovered under chuk_mcp.prot
               "Every function/method in the package whose parameter type mentions a model with an aliased field is found by "
               "introspection and driven with an instance carrying a unique sentinel in each aliased field; the sentinel must "
               "leave under the wire name."
-              " The exclude_none dump (the wire form) must keep everything inside untyped payloads, nulls included.")
+              " The exclude_none dump (the wire form) must keep everything inside untyped payloads, nulls included."
+              " Part C: initialize / tools/list / resources/list results compared with the server's typed configuration under both backends.")
 LEVEL_NOTE = ("Trusted: generator's notion of spec-valid; int for a declared-float field compares numerically. Serialisers "
               "that need further required arguments the harness cannot synthesise are listed in evidence as not driven.")
 RULE = ("A: case = (model class, wire object, backend); non-trivial = object has >=1 member. B: case = (serialiser, model "
